@@ -252,4 +252,59 @@ theorem add_commutes (k : Int) (dt : DT) (n : Int) (hv : Valid dt) :
 example : addUnits 86400 ⟨1968, 2, 29, 0, 0, 0⟩ 2 = .ok (some ⟨1968, 3, 2, 0, 0, 0⟩) := by rfl
 example : addUnits 1 ⟨U32_MAX, 12, 31, 23, 59, 59⟩ 1 = .ok none := by rfl
 
+/-! ### 7. Display / FromStr
+
+Strings are byte lists; `from_str` is modelled with Rust's slicing semantics: `&s[a..b]` off a UTF-8
+character boundary (or out of range) is the outcome `PErr.panic`. -/
+
+/-- **parse totality**: on every byte string `from_str` answers a date-time or an error — no slice
+is ever taken off a character boundary or out of range, and `new` cannot panic. (`notUtf8` only marks
+byte lists that are not a `&str` at all.) -/
+theorem parse_never_panics (s : List Nat) : fromStr s ≠ .error .panic :=
+  fromStr_ne_panic s
+
+/-- whatever `from_str` accepts is a valid calendar date-time -/
+theorem parse_ok_valid (s : List Nat) (dt : DT) (h : fromStr s = .ok dt) : Valid dt :=
+  fromStr_ok_valid s dt h
+
+/-- **print/parse round trip** for the documented four-digit-year form: every valid date-time with
+year ≤ 9999 prints to 20 ASCII bytes that parse back to the same date-time. -/
+theorem print_parse (dt : DT) (hv : Valid dt) (hy : dt.year ≤ 9999) :
+    (display dt).length = 20 ∧ isAscii (display dt) = true ∧ fromStr (display dt) = .ok dt := by
+  have hr := fromStr_display dt hv hy
+  refine ⟨?_, ?_, hr⟩
+  all_goals
+    unfold fromStr at hr
+    split at hr
+    · cases hr
+    · split at hr
+      · next chars hdec hc =>
+        simp only [Bool.and_eq_true] at hc
+        have := decode_ascii _ hc.1
+        rw [hdec] at this; cases this
+        first | exact shapeOk_length _ hc.2 | exact hc.1
+      · cases hr
+
+/- Years above 9999 print with more than four digits (`{:04}` never truncates), so the fixed-width
+parser rejects them: the round trip is claimed for 1..9999 only (checked on the implementation by the
+`show` stream of the correspondence). -/
+
+example : display ⟨2023, 1, 27, 12, 17, 25⟩ =
+    [50, 48, 50, 51, 45, 48, 49, 45, 50, 55, 84, 49, 50, 58, 49, 55, 58, 50, 53, 90] := by
+  rw [display_eq _ (by decide) (by decide) (by decide) (by decide) (by decide) (by decide)]
+  decide
+example : fromStr [50, 48, 50, 51, 45, 48, 49, 45, 50, 55, 84, 49, 50, 58, 49, 55, 58, 50, 53, 90]
+    = .ok ⟨2023, 1, 27, 12, 17, 25⟩ := by rfl
+
+/-- The input of the historical defect, `"202é-01-27T12:17:25Z"` (20 characters, 21 bytes):
+the code before the `is_ascii` repair sliced at byte 4, inside `é` — a panic … -/
+theorem old_fromStr_panics :
+    fromStrOld [50, 48, 50, 195, 169, 45, 48, 49, 45, 50, 55, 84, 49, 50, 58, 49, 55, 58, 50, 53, 90]
+      = .error .panic := by rfl
+
+/-- … the current code answers `InvalidFormat`. -/
+theorem fixed_fromStr_rejects :
+    fromStr [50, 48, 50, 195, 169, 45, 48, 49, 45, 50, 55, 84, 49, 50, 58, 49, 55, 58, 50, 53, 90]
+      = .error .invalidFormat := by rfl
+
 end Radix.Utc
